@@ -308,7 +308,7 @@ def iter_steps(tier, seed, extra=0):
         step.append(miri("chan-miri-q", "m_channel", ["--shape", 7 * seed + 3], 8 if q else 128, timeout=400 if q else 3000))
     else:
         step.append(native("backlog", ["w_step", "--mode", "backlog", "--seed", seed], timeout=300))
-    return step + [native("iter-%d" % i, ["w_iter", "--instances", 15, "--rounds", 30 if q else 300, "--seed", seed * 100 + i + extra],
+    return step + [native("iter-%d" % i, ["w_iter", "--instances", 15, "--rounds", 30 if q else 300, "--seed", seed * 100 + i + extra, "--focus", "C10" if extra else "C09"],
                    timeout=300 if q else 1800) for i in range(n)] + \
            ([] if q else [asan("iter-asan", ["w_iter", "--instances", 15, "--rounds", 60, "--seed", seed + 5 + extra], leaks=False, timeout=1800)])
 
